@@ -121,6 +121,13 @@ const (
 	Crypto3DES     CryptoMethod = "3DES"
 )
 
+// Implemented reports whether cedar can key a freshly negotiated session with this
+// cipher. Kept in sync with setupStreamEncryption, which derives a key for AES only;
+// BLOWFISH and 3DES are declared for parsing and for session-info interoperability.
+func (m CryptoMethod) Implemented() bool {
+	return m == CryptoAES
+}
+
 // isAESGCM reports whether a negotiated crypto name denotes AES-256-GCM. A
 // freshly-negotiated session records it as "AES" (CryptoAES) while inherited /
 // family sessions record it as "AESGCM"; both are the same cipher.
@@ -1590,7 +1597,11 @@ func (a *Authenticator) negotiateSecurity(negotiation *SecurityNegotiation) erro
 	// Find compatible crypto method - server preference order
 	for _, serverCrypto := range negotiation.ServerConfig.CryptoMethods {
 		for _, clientCrypto := range negotiation.ClientConfig.CryptoMethods {
-			if serverCrypto == clientCrypto {
+			// As with authentication methods, only a cipher cedar can actually key
+			// a fresh session with counts as common: choosing BLOWFISH or 3DES would
+			// turn a merely preferred encryption into a guaranteed handshake failure,
+			// and a required one into a bare close after an "accepted" negotiation.
+			if serverCrypto == clientCrypto && serverCrypto.Implemented() {
 				negotiation.NegotiatedCrypto = serverCrypto
 				break
 			}
